@@ -139,10 +139,17 @@ class Harness:
             par = IS.Parameters(transform=tr, bias=bs, bias_walk=wk, rng=0)
             par.apply(pd.DataFrame(realnp.ones((3, 3)), index=[0.0, 0.1, 0.3], columns=['gyro_x', 'gyro_y', 'gyro_z']), 'rate')
             cols = list(par.data_frame.columns)
+            # boundary value: the constant part of a WALKING bias is exactly zero - the state (and
+            # the time-varying bias in the readings) still exists
+            bs0 = np.array([0.0 if (b_on[i] and w_on[i]) else bs[i] for i in range(3)])
+            par0 = IS.Parameters(transform=tr, bias=bs0, bias_walk=wk, rng=0)
+            par0.apply(pd.DataFrame(realnp.ones((3, 3)), index=[0.0, 0.1, 0.3], columns=['gyro_x', 'gyro_y', 'gyro_z']), 'increment')
+            cols0 = list(par0.data_frame.columns)
         finally:
             self.IS.np = saved
             self.m['U'].np = saved
         H('state names = column names of the simulator parameter table, same order', cols == states, 'layout and naming')
+        H('state names = table columns also when the constant part of a walking bias is exactly zero', cols0 == states, 'layout and naming')
         if self.light:
             return out
         # output matrix times state = (T - I) r + b on the enabled entries
@@ -535,6 +542,12 @@ def replay(spec):
     par.apply(clean, 'rate')
     if list(par.data_frame.columns) != [s for s in states if not (s.startswith('bias') and b[XYZ.index(s[-1])] == 0)] and list(par.data_frame.columns) != states:
         fails.append('simulator parameter table columns %s != state names %s' % (list(par.data_frame.columns), states))
+    wk_ = np.array([0.01 if (b_on[i] and w_on[i]) else 0.0 for i in range(3)])
+    b0_ = np.array([0.0 if wk_[i] else (0.1 * (i + 1) if b_on[i] else 0.0) for i in range(3)])
+    par0 = IS.Parameters(transform=T, bias=b0_, bias_walk=wk_, rng=0)
+    par0.apply(clean, 'increment')
+    if list(par0.data_frame.columns) != states:
+        fails.append('with a walking bias whose constant part is exactly zero the simulator parameter table columns %s != state names %s' % (list(par0.data_frame.columns), states))
     model.reset_estimates()
     model.update_estimates(x * 0.4)
     model.update_estimates(x * 0.6)
